@@ -23,6 +23,7 @@ use rand::rngs::StdRng;
 use rand::seq::SliceRandom;
 use rand::Rng;
 use serde_json::{json, Value};
+use smartcore::api::{Predictor, UnsupervisedEstimator};
 use smartcore::cluster::kmeans::{KMeans, KMeansParameters};
 use smartcore::linalg::naive::dense_matrix::DenseMatrix;
 use smartcore::verif::BbdHandle;
@@ -62,6 +63,9 @@ struct FitOut {
 
 /// when set, fit_as! repeats its predict call through the ndarray back end (row-major and
 /// column-major storage of the same rows) and the nalgebra back end
+/// when set, fit_as! goes through the api traits (UnsupervisedEstimator::fit, Predictor::predict)
+/// instead of the inherent methods
+static USE_TRAIT: std::sync::atomic::AtomicBool = std::sync::atomic::AtomicBool::new(false);
 static ALT_BACKENDS: std::sync::atomic::AtomicBool = std::sync::atomic::AtomicBool::new(false);
 
 fn empty_out(status: &'static str) -> FitOut {
@@ -126,7 +130,13 @@ macro_rules! fit_as {
         let r = watchdog(30, move || {
             let xm: Vec<Vec<$t>> = x.iter().map(|r| r.iter().map(|&v| v as $t).collect()).collect();
             let xd = DenseMatrix::from_2d_vec(&xm);
-            let fit = KMeans::<$t>::fit(&xd, KMeansParameters::default().with_k(k).with_max_iter(mi));
+            let via_trait = USE_TRAIT.load(std::sync::atomic::Ordering::Relaxed);
+            let params = KMeansParameters::default().with_k(k).with_max_iter(mi);
+            let fit = if via_trait {
+                <KMeans<$t> as UnsupervisedEstimator<DenseMatrix<$t>, KMeansParameters>>::fit(&xd, params)
+            } else {
+                KMeans::<$t>::fit(&xd, params)
+            };
             match fit {
                 Err(_) => empty_out("err"),
                 Ok(model) => {
@@ -138,7 +148,12 @@ macro_rules! fit_as {
                     let mut out = FitOut { status: "ok", y, size, centroids, pstatus: "none", pred: vec![], q_used, alt: vec![] };
                     if !qm.is_empty() {
                         let qd = DenseMatrix::from_2d_vec(&qm);
-                        match guard(|| model.predict(&qd)) {
+                        let pr = if via_trait {
+                            guard(|| <KMeans<$t> as Predictor<DenseMatrix<$t>, Vec<$t>>>::predict(&model, &qd))
+                        } else {
+                            guard(|| model.predict(&qd))
+                        };
+                        match pr {
                             Ok(Ok(p)) => {
                                 out.pstatus = "ok";
                                 out.pred = p.iter().map(|&v| v as f64).collect();
@@ -753,6 +768,216 @@ fn shift(x: &Rows, off: &[i64]) -> Rows {
     x.iter().map(|r| r.iter().enumerate().map(|(j, &v)| v + off[j] as f64).collect()).collect()
 }
 
+/// batch-size ladder for predict: a small lattice model, then ONE predict call on N rows for N
+/// around the powers of two (internal block sizes) and a few larger ones.  Every other case
+/// goes through the api trait methods instead of the inherent ones.
+fn gen_predict_ladder(out: &mut Out, run: &mut i64) {
+    let th = thorough();
+    let mut r = rng(1206);
+    let mut sizes: Vec<usize> = vec![63, 64, 65, 255, 256, 257, 511, 512, 513, 1023, 1024, 1025, 1300];
+    if th {
+        sizes.extend_from_slice(&[127, 128, 129, 2047, 2048, 2049, 4097]);
+    }
+    for (ci, &nq) in sizes.iter().enumerate() {
+        let n = r.gen_range(12..=30usize);
+        let d = r.gen_range(1..=3usize);
+        let x = lattice_uniform(&mut r, n, d, 8);
+        let dist = distinct_rows(&x);
+        if dist < 2 {
+            continue;
+        }
+        let k = r.gen_range(2..=4usize.min(dist));
+        let q: Rows = (0..nq).map(|_| (0..d).map(|_| r.gen_range(-2..=10) as f64).collect()).collect();
+        USE_TRAIT.store(ci % 2 == 1, std::sync::atomic::Ordering::Relaxed);
+        *run += 1;
+        let o = run_fit(64, &x, &q, k, 100);
+        let mut e = fit_event(*run, "ladder", 64, true, &x, &q, k, 100, &o);
+        e["entry"] = json!(if ci % 2 == 1 { "trait" } else { "inherent" });
+        out.emit(e);
+    }
+    USE_TRAIT.store(false, std::sync::atomic::Ordering::Relaxed);
+}
+
+/// exact decomposition of a positive finite float for the geometric families:
+/// v = f * 2^e with 0.5 <= f < 1 (frexp); returns (round(f * 2^20), e)
+fn man_exp(v: f64) -> Option<(i64, i64)> {
+    if !(v.is_finite() && v > 0.0) {
+        return None;
+    }
+    let e = bin_exp(v);
+    let f = v * 2f64.powi(-(e as i32)); // exact: a power-of-two scaling
+    Some(((f * 1048576.0).round() as i64, e))
+}
+
+/// "geometric coordinates": column 0 of row i is 2^(e_i) with pairwise distinct exponents spread
+/// over 70..110 binary orders of magnitude (ascending, descending or shuffled), the other columns
+/// are small lattice integers.  Every midpoint split of the BBD tree then peels off one row, so
+/// the tree is as deep as the data are long.  Events carry the EXPONENTS in column 0 of X;
+/// reported values of that column travel as (mantissa, exponent) pairs (man_exp), the other
+/// columns as usual.
+fn geo_rows(r: &mut StdRng, n: usize, d: usize, order: usize) -> (Vec<Vec<i64>>, Rows) {
+    let base = r.gen_range(0..=8i64);
+    let mut exps: Vec<i64> = (0..n as i64).map(|i| base + i).collect();
+    match order {
+        0 => {}
+        1 => exps.reverse(),
+        _ => exps.shuffle(r),
+    }
+    let xi: Vec<Vec<i64>> = exps
+        .iter()
+        .map(|&e| {
+            let mut row = vec![e];
+            for _ in 1..d {
+                row.push(r.gen_range(0..=8));
+            }
+            row
+        })
+        .collect();
+    let xf: Rows = xi
+        .iter()
+        .map(|row| row.iter().enumerate().map(|(j, &v)| if j == 0 { 2f64.powi(v as i32) } else { v as f64 }).collect())
+        .collect();
+    (xi, xf)
+}
+
+fn gen_fit_geo(out: &mut Out, run: &mut i64) {
+    let th = thorough();
+    let mut r = rng(1207);
+    let cases = if th { 30 } else { 8 };
+    for ci in 0..cases {
+        let n = [70usize, 90, 110, 66][ci % 4];
+        let d = r.gen_range(2..=3usize);
+        let (xi, xf) = geo_rows(&mut r, n, d, ci % 3);
+        let k = [2usize, 3, 5][ci % 3];
+        let mi = [100usize, 1, 10][(ci / 3) % 3];
+        *run += 1;
+        let o = run_fit(64, &xf, &xf, k, mi);
+        let mut e = json!({"run": *run, "ev": "KMFit", "cls": "geo", "prec": 64, "n": n, "d": d, "k": k, "maxIter": mi,
+                           "xs": 1 << S_FIT, "X": xi, "offmax": 0, "status": o.status});
+        if o.status == "ok" {
+            let q12 = Q::new(S_FIT);
+            // column 0 as (mantissa, exponent), the rest at 2^-12
+            let mut gok = o.centroids.len() == k;
+            let mut gman = Vec::new();
+            let mut gexp = Vec::new();
+            let mut cfx: Vec<Vec<i64>> = Vec::new();
+            let mut finite = true;
+            for c in o.centroids.iter() {
+                finite = finite && c.iter().all(|v| v.is_finite());
+                match c.first().and_then(|&v| man_exp(v)) {
+                    Some((m, e)) => {
+                        gman.push(m);
+                        gexp.push(e);
+                    }
+                    None => {
+                        gok = false;
+                        gman.push(0);
+                        gexp.push(0);
+                    }
+                }
+                let mut row = vec![0i64];
+                row.extend(c.iter().skip(1).map(|&v| q12.x(v)));
+                cfx.push(row);
+            }
+            let m = e.as_object_mut().unwrap();
+            m.insert("finite".into(), json!(finite));
+            m.insert("inrange".into(), json!(q12.ok()));
+            m.insert("y".into(), json!(o.y));
+            m.insert("size".into(), json!(o.size));
+            m.insert("cfx".into(), json!(cfx));
+            m.insert("g0ok".into(), json!(gok));
+            m.insert("g0man".into(), json!(gman));
+            m.insert("g0exp".into(), json!(gexp));
+            m.insert("pstatus".into(), json!(o.pstatus));
+            m.insert("pred".into(), json!(o.pred.iter().map(|&v| int_exact(v).unwrap_or(-1)).collect::<Vec<i64>>()));
+        }
+        out.emit(e);
+    }
+}
+
+/// filtering step on geometric data: centroids have column 0 = 2^g (exponent g given) and small
+/// lattice integers elsewhere
+fn gen_bbd_geo(out: &mut Out, run: &mut i64) {
+    let th = thorough();
+    let mut r = rng(1208);
+    let cases = if th { 40 } else { 10 };
+    for ci in 0..cases {
+        let n = [70usize, 90, 110, 66][ci % 4];
+        let d = r.gen_range(2..=3usize);
+        let (xi, xf) = geo_rows(&mut r, n, d, ci % 3);
+        let k = r.gen_range(1..=6usize);
+        let emax = xi.iter().map(|row| row[0]).max().unwrap();
+        let cs: Vec<Vec<i64>> = (0..k)
+            .map(|_| {
+                let mut c = vec![if r.gen_bool(0.7) { xi[r.gen_range(0..n)][0] } else { r.gen_range(0..=emax + 6) }];
+                for _ in 1..d {
+                    c.push(r.gen_range(0..=8));
+                }
+                c
+            })
+            .collect();
+        let cf: Rows = cs
+            .iter()
+            .map(|c| c.iter().enumerate().map(|(j, &v)| if j == 0 { 2f64.powi(v as i32) } else { v as f64 }).collect())
+            .collect();
+        let res = guard(|| {
+            let xd = DenseMatrix::from_2d_vec(&xf);
+            let h = BbdHandle::<f64>::new(&xd);
+            h.clustering(&cf)
+        });
+        *run += 1;
+        let mut e = json!({"run": *run, "ev": "BbdGeo", "cls": "geo", "n": n, "d": d, "k": k, "X": xi, "cg": cs});
+        let m = e.as_object_mut().unwrap();
+        match res {
+            Err(_) => {
+                m.insert("status".into(), json!("panic"));
+            }
+            Ok((member, counts, sums, _dist)) => {
+                m.insert("status".into(), json!("ok"));
+                m.insert("member".into(), json!(member));
+                m.insert("counts".into(), json!(counts));
+                let mut ok = true;
+                let mut sman = Vec::new();
+                let mut sexp = Vec::new();
+                let mut low: Vec<Vec<i64>> = Vec::new();
+                for (c, srow) in sums.iter().enumerate() {
+                    let cnt = counts.get(c).copied().unwrap_or(0);
+                    match man_exp(srow[0]) {
+                        Some((mm, ee)) => {
+                            sman.push(mm);
+                            sexp.push(ee);
+                        }
+                        None => {
+                            // an empty cluster has sum 0, which has no mantissa/exponent form
+                            if !(cnt == 0 && srow[0] == 0.0) {
+                                ok = false;
+                            }
+                            sman.push(0);
+                            sexp.push(0);
+                        }
+                    }
+                    let mut row = vec![0i64];
+                    for &v in srow.iter().skip(1) {
+                        match int_exact(v) {
+                            Some(i) => row.push(i),
+                            None => {
+                                ok = false;
+                                row.push(0);
+                            }
+                        }
+                    }
+                    low.push(row);
+                }
+                m.insert("sumsOk".into(), json!(ok));
+                m.insert("sums".into(), json!(low));
+                m.insert("s0man".into(), json!(sman));
+                m.insert("s0exp".into(), json!(sexp));
+            }
+        }
+        out.emit(e);
+    }
+}
+
 /// offset families for fit / predict: small lattice rows + a large common offset per column
 fn gen_fit_offset(out: &mut Out, run: &mut i64) {
     let th = thorough();
@@ -1088,7 +1313,7 @@ fn rerun(inp: &str, out: &mut Out, run: &mut i64) {
             let cs: Vec<RC> = cn.into_iter().zip(cd).map(|(cn, cd)| RC { cn, cd }).collect();
             let off: Vec<i64> = v["off"].as_array().map(|a| a.iter().map(|b| b.as_i64().unwrap_or(0)).collect()).unwrap_or_default();
             out.emit(bbd_event_off(*run, v["cls"].as_str().unwrap_or("rerun"), &x, &cs, None, &off));
-        } else if v["ev"] == "KMFit" && v["xs"].as_i64() == Some(1 << S_FIT) {
+        } else if v["ev"] == "KMFit" && v["xs"].as_i64() == Some(1 << S_FIT) && v["cls"] != "geo" {
             let x: Rows = ints(&v["X"]).iter().map(|r| r.iter().map(|&a| a as f64).collect()).collect();
             let q: Rows = if v["Q"].is_array() {
                 ints(&v["Q"]).iter().map(|r| r.iter().map(|&a| a as f64).collect()).collect()
@@ -1127,6 +1352,8 @@ fn main() {
             let mut out = Out::create(path);
             gen_fit(&mut out, &mut run);
             gen_fit_offset(&mut out, &mut run);
+            gen_predict_ladder(&mut out, &mut run);
+            gen_fit_geo(&mut out, &mut run);
             gen_ulp(&mut out, &mut run);
             let n = out.finish();
             println!("events={} runs={} skipped={}", n, run, skipped);
@@ -1135,6 +1362,7 @@ fn main() {
             let mut out = Out::create(path);
             skipped = gen_bbd(&mut out, &mut run);
             skipped += gen_bbd_offset(&mut out, &mut run);
+            gen_bbd_geo(&mut out, &mut run);
             let n = out.finish();
             println!("events={} runs={} skipped={}", n, run, skipped);
         }
